@@ -9,7 +9,7 @@ import store_gen as sg
 
 JOIN, CSNEW, CSADD, CSCOLLECT, CSEXTEND, CSCLEAR, CSDUMP = 80, 81, 82, 83, 84, 85, 86
 K_JOIN, K_LEND, K_PAR, K_GET, K_GETU = 0, 1, 2, 3, 4
-M_READ, M_WRITE, M_ENTS, M_BITS, M_ANTI, M_MAYBE, M_RESTR, M_CS, M_DRAIN = range(9)
+M_READ, M_WRITE, M_ENTS, M_BITS, M_ANTI, M_MAYBE, M_RESTR, M_CS, M_DRAIN, M_BITOP = range(10)
 FOCI = ("join", "par", "restrict", "changeset")
 
 # interesting positions of the hierarchical bit set: word / layer boundaries
@@ -111,6 +111,9 @@ class JGen(sg.Gen):
             if p[i + 2] == 2:
                 self.cs_has[p[i + 1]] = set()
             return i + 4
+        if c == 9:
+            na = p[i + 2]
+            return i + 4 + na + p[i + 3 + na]
         self.has[p[i + 1]] = set()      # drain
         return i + 2
 
@@ -242,7 +245,7 @@ class JGen(sg.Gen):
         drawn kind is not available (the caller draws again)."""
         rng = self.rng
         focus = self.focus
-        w = {M_READ: 20, M_WRITE: 16, M_ENTS: 10, M_BITS: 6, M_ANTI: 8, M_MAYBE: 14, M_RESTR: 8, M_CS: 3, M_DRAIN: 2}
+        w = {M_READ: 20, M_WRITE: 16, M_ENTS: 10, M_BITS: 6, M_ANTI: 8, M_MAYBE: 14, M_RESTR: 8, M_CS: 3, M_DRAIN: 2, M_BITOP: 6}
         if focus == "restrict":
             w[M_RESTR] = 45
         elif focus == "changeset":
@@ -291,6 +294,24 @@ class JGen(sg.Gen):
             if rng.random() < 0.5:
                 rng.shuffle(xs)
             return [3, len(xs)] + xs
+        if code == M_BITOP:
+            # a combination of two bit sets: and / or / xor (finite, positive) or not (like a negated storage)
+            op = rng.choice([0, 1, 2]) if positive else rng.choice([0, 1, 2, 3])
+            a = set(self.some_index() for _ in range(rng.randint(0, 8)))
+            b = set(self.some_index() for _ in range(rng.randint(0, 8)))
+            if anchor is not None and anchor < self.n0:
+                if op == 0:
+                    a.add(anchor); b.add(anchor)
+                elif op == 1:
+                    (a if rng.random() < 0.5 else b).add(anchor)
+                elif op == 2:
+                    a.add(anchor); b.discard(anchor)
+                else:
+                    a.discard(anchor)
+            elif anchor is not None and op != 3 and rng.random() < 0.8:
+                return None
+            a, b = sorted(a), sorted(b)
+            return [9, op, len(a)] + a + [len(b)] + b
         if code == M_ANTI:
             if not sharable:
                 return None
@@ -669,6 +690,13 @@ def parse_member(p, i):
         return {0: "&cs%d", 1: "&mut cs%d{%+d}", 2: "take(cs%d)"}[mode] % ((cs, delta) if mode == 1 else (cs,)), i + 4
     if code == 8:
         return "%s.drain()" % _sname(p[i + 1]), i + 2
+    if code == 9:
+        op, na = p[i + 1], p[i + 2]
+        a = p[i + 3:i + 3 + na]
+        nb = p[i + 3 + na]
+        b = p[i + 4 + na:i + 4 + na + nb]
+        sa, sb = "bits{%s}" % ",".join(map(str, a)), "bits{%s}" % ",".join(map(str, b))
+        return {0: "(&%s & &%s)", 1: "(&%s | &%s)", 2: "(&%s ^ &%s)"}.get(op, "!&%s%.0s") % (sa, sb), i + 4 + na + nb
     raise ValueError("member code %r" % code)
 
 
